@@ -8,6 +8,7 @@ import (
 	"github.com/superfly/litefs/verifharness/dbreplay"
 	"github.com/superfly/litefs/verifharness/sim"
 	"github.com/superfly/litefs/verifharness/t3"
+	"github.com/superfly/litefs/verifharness/twowriters"
 )
 
 func main() {
@@ -17,10 +18,15 @@ func main() {
 	rep.Rule = "behaviours of DBFile.tla in WAL mode (transactions of 1-4 frames with repeated pages, rolled-back frames later overwritten, client checkpoints PASSIVE/TRUNCATE with log restart and new salts, LiteFS checkpoints, growth and shrink across a checksum block) replayed on a real node; a case is one (behaviour, concretisation); non-trivial = at least one transaction was captured"
 	rep.Assumptions = []string{"SQLite's pager is represented by the environment part of DBFile.tla (Appendix A of DESIGN.md)", "CRC64 collisions ignored"}
 	defer core.Cleanup()
-	if t3.MaybeReplay(rep, args, map[string]bool{"C03": true}) {
+	if t3.MaybeReplay(rep, args, map[string]bool{"C03": true}) || twowriters.MaybeReplay(rep, args, "C03") {
 		rep.Finish()
 	}
-	dbreplay.Post = func() { t3.Stage(rep, args, map[string]bool{"C03": true}) }
+	// two connections on one database: a second writer asks for the write lock while the first one's release
+	// is capturing its transaction (WalRelease.tla)
+	dbreplay.Post = func() {
+		twowriters.Stage(rep, args, "C03")
+		t3.Stage(rep, args, map[string]bool{"C03": true})
+	}
 	dbreplay.Main(rep, args, "C03", []dbreplay.Stage{
 		{Name: "wal-3pg-4ops-exhaustive", Cfg: core.Pick(args, "MC_DBFile_wal.cfg", "MC_DBFile_wal_edge.cfg"), Timeout: 15 * time.Minute, MaxKeep: core.Pick(args, 1500, 12000), Always: []string{"LCkpt"}},
 		{Name: "wal-beyond-3pg-4ops-exhaustive", Cfg: "MC_DBFile_wal_beyond.cfg", Timeout: 15 * time.Minute, MaxKeep: core.Pick(args, 800, 8000)},
